@@ -318,46 +318,58 @@ def _fp(path):
 # ------------------------------------------------------------------ R5
 def rule_r5(ctx):
     rr = RuleResult("C02-R5", "convert_code_string returns the unparser's text with nothing but newline removal applied")
-    rr.floor = 2
+    rr.floor = 1
     prog = ctx.prog
     fi = prog.func("oneliner", "convert_code_string")
     rets = [n for n in ast.walk(fi.node) if isinstance(n, ast.Return) and n.value is not None]
     if not rets:
         raise AnalysisError("convert_code_string has no return")
     unparsers = {"expr_unparse", "unparse"}
+
+    def is_newline_removal(v):
+        return (
+            isinstance(v, ast.Call) and isinstance(v.func, ast.Attribute) and v.func.attr == "replace"
+            and len(v.args) == 2 and all(isinstance(a, ast.Constant) for a in v.args)
+            and v.args[0].value in ("\n", "\r", "\r\n") and v.args[1].value == ""
+        )
+
+    def leaves(v, depth=0):
+        """The expressions the value may come from: peel newline removal, follow local names (every
+        assignment of the function: flow-insensitive) and both arms of a conditional expression."""
+        if depth > 6:
+            return [v]
+        if is_newline_removal(v):
+            return leaves(v.func.value, depth + 1)
+        if isinstance(v, ast.IfExp):
+            return leaves(v.body, depth + 1) + leaves(v.orelse, depth + 1)
+        if isinstance(v, ast.Name):
+            assigns = [n.value for n in ast.walk(fi.node) if isinstance(n, ast.Assign) and any(isinstance(t, ast.Name) and t.id == v.id for t in n.targets)]
+            assigns += [n.value for n in ast.walk(fi.node) if isinstance(n, ast.AnnAssign) and n.value is not None and isinstance(n.target, ast.Name) and n.target.id == v.id]
+            aug = [n for n in ast.walk(fi.node) if isinstance(n, ast.AugAssign) and isinstance(n.target, ast.Name) and n.target.id == v.id]
+            if assigns and not aug:
+                out = []
+                for a in assigns:
+                    out += leaves(a, depth + 1)
+                return out
+        return [v]
+
     for r in rets:
         rr.instances += 1
-        v = r.value
-        chain = []
-        # peel defensive replace("\n"/"\r", "") calls
-        while isinstance(v, ast.Call) and isinstance(v.func, ast.Attribute) and v.func.attr == "replace":
-            args = v.args
-            ok = (
-                len(args) == 2 and all(isinstance(a, ast.Constant) for a in args)
-                and args[0].value in ("\n", "\r", "\r\n") and args[1].value == ""
-            )
-            if not ok:
-                break
-            chain.append("replace")
-            v = v.func.value
-        # a local variable holding the unparser result
-        if isinstance(v, ast.Name):
-            assigns = [n for n in ast.walk(fi.node) if isinstance(n, ast.Assign) and any(isinstance(t, ast.Name) and t.id == v.id for t in n.targets)]
-            if len(assigns) == 1:
-                v = assigns[0].value
-                while isinstance(v, ast.Call) and isinstance(v.func, ast.Attribute) and v.func.attr == "replace" and len(v.args) == 2 and all(isinstance(a, ast.Constant) for a in v.args) and v.args[0].value in ("\n", "\r") and v.args[1].value == "":
-                    v = v.func.value
         what = f"return@{r.lineno}"
-        is_unparse = isinstance(v, ast.Call) and (
-            (isinstance(v.func, ast.Name) and v.func.id in unparsers)
-            or (isinstance(v.func, ast.Attribute) and v.func.attr in unparsers)
-        )
-        if is_unparse:
+        bad = None
+        for v in leaves(r.value):
+            is_unparse = isinstance(v, ast.Call) and (
+                (isinstance(v.func, ast.Name) and v.func.id in unparsers)
+                or (isinstance(v.func, ast.Attribute) and v.func.attr in unparsers)
+            )
+            if not is_unparse:
+                bad = bad or v
+        if bad is None:
             rr.ok(what, sample={"rule": "C02-R5", "return": ast.unparse(r.value)[:70], "verdict": "unparser text (+ defensive newline removal)"})
         else:
             rr.fail(
                 f"C02-R5|convert_code_string|return-postprocessed",
-                f"{fi.where()} line {r.lineno}: the returned text `{ast.unparse(r.value)[:80]}` is not the plain result of an unparser call",
+                f"{fi.where()} line {r.lineno}: the returned text `{ast.unparse(r.value)[:80]}` comes from `{ast.unparse(bad)[:80]}`, which is not the plain result of an unparser call with at most \\n/\\r removed (e.g. str.splitlines() also splits at U+2028/U+2029, \\x0b, \\x0c, \\x1c-\\x1e, \\x85, which the own unparser writes verbatim inside string literals)",
                 where=fi.where(), what=what,
             )
     return rr
